@@ -94,6 +94,15 @@ static bool end_dchunk(zckCtx *zck, zckComp *comp, const bool use_dict,
     VALIDATE_BOOL(zck);
     ALLOCD_BOOL(zck, comp);
 
+    /* Without compression the stored chunk is the data itself, so it must
+     * have the size the index declares */
+    if(comp->data_loc != fd_size) {
+        set_fatal_error(zck, "Chunk holds %llu bytes instead of the %llu "
+                        "bytes in the index",
+                        (long long unsigned) comp->data_loc,
+                        (long long unsigned) fd_size);
+        return false;
+    }
     return true;
 }
 
